@@ -164,8 +164,14 @@ def check(ctx):
                    f"APE[{member}]: relation is refused "
                    f"(MetricsException)" if refused else
                    f"APE[{member}]: unsupported relation is not refused",
-                   key=f"C01.3:{member}:refused")
+                   key=f"C01.3:{member}:refused",
+                   # values computed through a table that is not read (a
+                   # registry may not have an entry for this relation)
+                   evidence=err is None or not opaque(err))
             continue
+        if err is None:
+            if _missing_values(ctx, res, "C01.3", "APE", member):
+                continue
         ctx.require(err is not None, f"APE[{member}]: self.error is never "
                     f"assigned")
         pe = per_element(err)
@@ -278,6 +284,53 @@ def check(ctx):
     ctx.section(_pipeline_inputs, ctx, "C01.7")
     ctx.section(_helpers, ctx, "C01.8")
     ctx.section(_alignment, ctx, "C01.9")
+
+
+def _missing_values(ctx, res, rule: str, cls_: str, member: str) -> bool:
+    """a supported relation for which no error values are stored: evident
+    when the run was read completely (no calls through values, no helper of
+    the program that is handed the metric and not looked through) and either
+    refuses the relation whenever the input guards pass, or completes
+    without storing anything.  True if an obligation was recorded."""
+    from ..lib import indirect_calls
+    if indirect_calls(res) or any(
+            e.kind == "call" and e.data.get("target") is not None and
+            not e.data.get("inlined") and any(
+                v is mm.SELF for v in (e.data.get("bound") or {}).values())
+            for e in res.events):
+        return False
+    # a module-level table that the program fills after its definition (a
+    # registry filled by decorators) reads as its empty display here: a
+    # lookup in it that "fails" is no evidence
+    import ast as _ast
+    it_ = Interp(ctx.prog)
+    m_ = res.func.module
+    for n in _ast.walk(res.func.node):
+        if isinstance(n, _ast.Name) and isinstance(n.ctx, _ast.Load) and \
+                n.id in m_.constants and isinstance(
+                    m_.constants[n.id], (_ast.Dict, _ast.List, _ast.Set,
+                                         _ast.Call)) and \
+                it_._mutated_table(m_, n.id):
+            return False
+    refused = [e for e in res.of_kind("raise")
+               if "MetricsException" in (e.data.get("exc_name") or "") and
+               _unconditional_after_guard(e)]
+    completes = not tm.is_const(res.fallthrough, False) or any(
+        not tm.is_const(l, False) for _, l in res.returns)
+    if refused:
+        ctx.ob(rule, refused[0], False,
+               f"{cls_}[{member}]: the relation is refused "
+               f"(MetricsException at {refused[0].where}) although it is a "
+               f"supported pose relation of {cls_} — no error values",
+               key=f"{rule}:{member}:supported")
+        return True
+    if completes:
+        ctx.ob(rule, res.func, False,
+               f"{cls_}[{member}]: process_data completes without storing "
+               f"error values for this relation",
+               key=f"{rule}:{member}:supported")
+        return True
+    return False
 
 
 def _unconditional_after_guard(e: Event) -> bool:
@@ -791,6 +844,18 @@ def _common_wiring(ctx, P: str):
 
 
 VARIANTS = [
+    dict(name="ape-full-transformation-not-computed", file="evo/core/metrics.py",
+         find="        elif self.pose_relation == PoseRelation.full_transformation:\n"
+              "            self.error = np.array(\n"
+              "                [np.linalg.norm(E_i - np.eye(4)) for E_i in self.E])\n",
+         replace="        elif self.pose_relation == PoseRelation.full_transformation:\n"
+                 "            pass\n",
+         expect="fire", rule="C01.3"),
+    dict(name="ape-full-transformation-refused", file="evo/core/metrics.py",
+         find="        elif self.pose_relation == PoseRelation.full_transformation:\n"
+              "            self.error = np.array(\n"
+              "                [np.linalg.norm(E_i - np.eye(4)) for E_i in self.E])\n",
+         replace="", expect="fire", rule="C01.3"),
     dict(name="length-guard-removed", file="evo/core/metrics.py",
          find="        traj_ref, traj_est = data\n"
               "        if traj_ref.num_poses != traj_est.num_poses:\n"
